@@ -35,15 +35,22 @@ NormMPD(m) == {NormAS(m[i]) : i \in DOMAIN m}
 \* of the outcome.  The timeline MPD (manifest_timeline_nr.mpd) is part of the outcome too: per AdaptationSet the
 \* set of Representation ids and the numbers its SegmentTimeline covers.
 NormTL(tl) == {[reps |-> Range(tl[i].reps), sn |-> tl[i].sn, nseg |-> tl[i].nseg] : i \in DOMAIN tl}
-Outcome(files, hasmpd, m, hastl, tl) ==
+\* The answers are part of the outcome as well: the set of (track, segment index, status) of all uploads of the
+\* channel (an upload with wrong or no credentials is refused with 401 in every sequential order).
+Outcome(files, hasmpd, m, hastl, tl, st) ==
    [files |-> Range(files), hasmpd |-> hasmpd, mpd |-> NormMPD(m),
     nas |-> Len(m), nreps |-> Cardinality(UNION {Range(m[i].reps) : i \in DOMAIN m}),
     nrepsRaw |-> LET RECURSIVE Sum(_) Sum(i) == IF i = 0 THEN 0 ELSE Len(m[i].reps) + Sum(i - 1) IN Sum(Len(m)),
-    hastl |-> hastl, tl |-> NormTL(tl), ntl |-> Len(tl)]
+    hastl |-> hastl, tl |-> NormTL(tl), ntl |-> Len(tl), st |-> Range(st)]
 Linearizable(o, refs) == o \in refs
 FilesEqualSome(o, refs) == \E r \in refs : r.files = o.files
 MPDEqualSome(o, refs) == \E r \in refs : r.hasmpd = o.hasmpd /\ r.mpd = o.mpd /\ r.nas = o.nas /\ r.nrepsRaw = o.nrepsRaw
+StatusEqualSome(o, refs) == \E r \in refs : r.st = o.st
 TLEqualSome(o, refs) == \E r \in refs : r.hastl = o.hastl /\ r.tl = o.tl /\ r.ntl = o.ntl
+
+\* C19.progress: every upload is answered within the driver's bound (a handler that never returns has lost the
+\* upload and, holding the channel's lock or queue, every later upload of the channel).
+ProgressOK(answered) == answered
 
 \* C19.isolated: channels that share a storage directory do not disturb each other: a channel's manifest.mpd and
 \* manifest_timeline_nr.mpd exist (once they are due), describe representations of that channel only, and the
